@@ -402,9 +402,29 @@ class R:
                 g.emit("wf64 %s" % x)
                 g.count("addmany64:order-episode")
 
+    def many_runs_episode(self):
+        """batch iteration (every buffer length of a spread, incl. 0) over buckets whose chunks are RUN containers with several runs, an
+        interval across 2^32, array and bitmap chunks: the batch boundary falls inside runs that are not the last of their chunk"""
+        g = self.g
+        x = g.fresh("mr")
+        g.emit("new64 %s" % x)
+        for lo, hi in ((1000, 3000), (5000, 5100), (9000, 12000), (70000, 70010), (B32 - 500, B32 + 700), (B32 + 5000, B32 + 5003),
+                       (7 * B32 + 65000, 7 * B32 + 66000), (7 * B32 + 200000, 7 * B32 + 200001)):
+            g.emit("addr64 %s %d %d" % (x, lo, hi))
+        g.emit("addmany64 %s %s" % (x, " ".join(str(3 * B32 + 9 * i) for i in range(50))))
+        g.emit("opt64 %s" % x)
+        for sizes in ([1] * 5 + [7, 64], [7] * 40, [64] * 12, [256, 0, 256, 1000], [1000] * 3, [4096, 1, 4096], [5510, 3], [100000]):
+            i = g.fresh("mri")
+            g.emit("mit64 %s %s" % (i, x))
+            for n in sizes:
+                g.emit("many64 %s %d" % (i, n))
+            g.emit("drain64 %s" % i)
+        g.count("iter64:many-over-multi-run-chunks")
+
     def suite_hist(self, nhist, steps):
         g, r = self.g, self.r
         self.addmany_order_episode()
+        self.many_runs_episode()
         self.boundary_episode(1)
         self.boundary_episode(0x80000000)
         self.boundary_episode()
